@@ -422,7 +422,76 @@ def F_C01_2():
     return m.other.v != 0
 
 
-ALL = [D1, D2, D3, D4, D5, D6, D7, D8, D9, D10, D11, D12, D13, D14, D15, D16,
+def F_C08_1():
+    "C08: a subclass that only changes do_not_copy loses the inherited default_factory (the attribute comes up MISSING)"
+    from spec_classes import Attr
+
+    @spec_class
+    class F:
+        x: list = Attr(default_factory=lambda: [1])
+
+    @spec_class(do_not_copy=True)
+    class G(F):
+        pass
+
+    from spec_classes.types import MISSING
+    return F().x == [1] and getattr(G(), "x", MISSING) is MISSING
+
+
+def D17():
+    "C09: a plain class between two spec classes re-runs the grandparent constructor without keywords"
+    @spec_class
+    class A:
+        a: int = 1
+
+    class P(A):
+        pass
+
+    @spec_class
+    class B(P):
+        b: int = 2
+
+    return B(a=5).a != 5
+
+
+def D18():
+    "C10/C02: deepcopy of a self-referential instance recurses without bound"
+    import copy
+    from typing import Any
+
+    @spec_class
+    class Node:
+        name: str = "n"
+        parent: Any = None
+
+    x = Node(name="root")
+    x.parent = x
+    try:
+        y = copy.deepcopy(x)
+    except RecursionError:
+        return True
+    return y.parent is not y
+
+
+def D19():
+    "C07: a decorated subclass of a frozen spec class is silently mutable"
+    @spec_class(frozen=True)
+    class P:
+        a: int = 1
+
+    @spec_class
+    class C(P):
+        b: int = 2
+
+    c = C()
+    try:
+        c.a = 5
+    except Exception:
+        return False
+    return True
+
+
+ALL = [D17, D18, D19, F_C08_1, D1, D2, D3, D4, D5, D6, D7, D8, D9, D10, D11, D12, D13, D14, D15, D16,
        F_C01_1, F_C02_1, F_C04_1, F_C13_1, F_C07_1, F_C07_2, F_C07_3, F_C04_2, F_C01_2]
 
 if __name__ == "__main__":
